@@ -401,7 +401,10 @@ def instrument_job(job, a, wd):
         # constant-trip-count inner loops are unwound first (unwinding assertions on), so that only the loops that carry a
         # contract remain: dfcc rejects contracts on loops nested in a loop whose body declares the inner loop variable
         r = os.path.join(wd, "u.gb")
-        rc, o, e = run(["goto-instrument", "--unwindset", ",".join(job.pre_unwindset), "--unwinding-assertions", cur, r], timeout=300)
+        allk = [x.split(":")[1] for x in job.pre_unwindset if x.startswith("*:")]
+        us = [x for x in job.pre_unwindset if not x.startswith("*:")]
+        cmd = ["goto-instrument"] + (["--unwind", allk[0]] if allk else []) + (["--unwindset", ",".join(us)] if us else []) + ["--unwinding-assertions", cur, r]
+        rc, o, e = run(cmd, timeout=300)
         if rc != 0:
             raise Undecided("pre-unwinding failed: " + (e or o)[-600:])
         cur = r
@@ -625,7 +628,10 @@ def run_job(job, keep=False):
             R.obligations.append(ob)
             if r["status"] == "FAILURE":
                 R.failed.append(ob)
-        if job.expect_canary and not canary_failed:
+        real_fail = [o for o in R.failed if o["cls"] != "unwind"]
+        if job.expect_canary and not canary_failed and not real_fail:
+            # (a reported FAILURE is a reachable violation whether or not the end of the harness is reachable: only successes
+            # can be vacuous; an exceeded unwinding bound alone decides nothing)
             raise Undecided("vacuity: canary assertion did not fail (preconditions unsatisfiable or end unreachable)")
         if not R.obligations:
             raise Undecided("vacuity: zero obligations generated")
